@@ -380,6 +380,17 @@ Section Proofs.
       rewrite E. cbn [Values.of_mich].
       destruct (lam_norm (NSeq items)) as [c|]; [|discriminate H].
       cbn [result_eqb] in H. apply node_eqb_spec in H. subst c. reflexivity.
+    - (* big_map *) intros v H; destruct v; try discriminate H; cbn [Values.has_type] in H.
+      + (* literal *) apply andb_true_iff in H. destruct H as [H S].
+        split; [|no_pair]. intro m. rewrite to_mich_map. cbn [Values.of_mich].
+        rewrite map_result_map.
+        * cbn [bind]. rewrite S. reflexivity.
+        * rewrite forallb_forall in H. apply Forall_forall. intros [k x] He.
+          specialize (H _ He). cbn [fst snd] in H. apply andb_true_iff in H. destruct H as [Hk Hx].
+          unfold elt_node. cbn [fst snd elt_parts]. change (byte_eqb T_Elt T_Elt) with true. cbv iota.
+          cbn [bind fst snd].
+          rewrite (proj1 (IHt1 k Hk) m). cbn [bind]. rewrite (proj1 (IHt2 x Hx) m). reflexivity.
+      + (* id *) split; [intro m; destruct m; reflexivity | no_pair].
     - (* ticket *) apply rt_ticket; assumption.
   Qed.
 
@@ -840,6 +851,25 @@ Section Soundness.
       destruct (lam_norm (NSeq items)) as [c|] eqn:E; [|discriminate H]. injection H as <-.
       destruct (lam_idem _ _ E) as [Hc (l & ->)]. cbn [Values.has_type]. rewrite Hc.
       cbn [result_eqb]. apply node_eqb_spec. reflexivity.
+    - (* big_map *) destruct n; try discriminate H.
+      + injection H as <-. reflexivity.
+      + match type of H with context [map_result ?f items] => destruct (map_result f items) as [l|] eqn:E; [|discriminate H] end.
+        cbn [bind] in H. destruct (sorted_strict (map fst l)) eqn:S; [|discriminate H]. injection H as <-.
+        rewrite str_utf8_seq in Hu. rewrite no_empty_ep_map in Hn.
+        cbn [Values.has_type]. rewrite S, andb_true_r. clear S.
+        apply map_result_inv in E.
+        induction E as [|x y items l Hxy _ IHl]; [reflexivity|].
+        cbn [forallb] in *. apply andb_true_iff in Hu. destruct Hu as [Hu1 Hu2].
+        apply andb_true_iff in Hn. destruct Hn as [Hn1 Hn2].
+        rewrite IHl by assumption. rewrite andb_true_r.
+        unfold elt_parts in Hxy. destruct x; try discriminate Hxy.
+        destruct args as [|k [|w [|? ?]]]; try discriminate Hxy.
+        destruct (byte_eqb tag T_Elt); [|discriminate Hxy]. cbn [bind fst snd] in Hxy.
+        destruct (of_mich t1 k) as [vk|] eqn:Ek; [|discriminate Hxy]. cbn [bind] in Hxy.
+        destruct (of_mich t2 w) as [vw|] eqn:Ew; [|discriminate Hxy]. injection Hxy as <-.
+        rewrite str_utf8_prim in Hu1. cbn [forallb] in Hu1. rewrite !andb_true_iff in Hu1. destruct Hu1 as [U1 [U2 _]].
+        cbn [fst snd] in *. apply andb_true_iff in Hn1. destruct Hn1 as [M1 M2].
+        rewrite (IHt1 k vk U1 Ek M1), (IHt2 w vw U2 Ew M2). reflexivity.
     - (* ticket *)
       assert (B : forall x i z, str_utf8 x = true -> str_utf8 i = true ->
                   ticket_of (of_addr C AnyAddress x) (of_mich t i) z = Ok v -> has_type (TTicket t) v = true).
